@@ -12,7 +12,7 @@ PROFILES = {
             "req": {"ssr": 0.4, "reload": 0.05, "incr": 0.1, "set": 0.12, "kill": 0.07, "signal": 0.03, "rm": 0.08, "add": 0.03, "quit": 0.02, "ro": 0.03}},
     "C03": {"stubborn": 0.25, "recipes": {"children_vanish": 0.06}, "ops": {"wake": 0.5, "die": 0.06, "adv": 0.08},
             "req": {"ssr": 0.3, "reload": 0.12, "incr": 0.15, "set": 0.08, "kill": 0.22, "signal": 0.02, "rm": 0.03, "add": 0.01, "quit": 0.01, "ro": 0.02}},
-    "C04": {"exec_fail": 0.2, "hooks": True, "recipes": {"untracked_zombies": 0.08, "on_demand_stop": 0.05}, "ops": {"die": 0.1, "fault": 0.08, "check": 0.2},
+    "C04": {"exec_fail": 0.2, "hooks": True, "recipes": {"untracked_zombies": 0.08, "on_demand_stop": 0.05, "stopped_worker": 0.04}, "ops": {"die": 0.1, "fault": 0.08, "check": 0.2},
             "req": {"ssr": 0.3, "reload": 0.1, "incr": 0.15, "set": 0.05, "kill": 0.08, "signal": 0.02, "rm": 0.05, "add": 0.05, "quit": 0.0, "ro": 0.15}},
     "C05": {"stubborn": 0.3, "recipes": {"on_demand_stop": 0.05}, "ops": {"wake": 0.4, "check": 0.1},
             "req": {"ssr": 0.28, "reload": 0.14, "incr": 0.1, "set": 0.05, "kill": 0.2, "signal": 0.03, "rm": 0.04, "add": 0.02, "quit": 0.01, "ro": 0.1}},
@@ -36,7 +36,9 @@ TRUSTED_EXTRA = [
 ]
 ASSUMPTIONS = [
     "kernel contract = harness/sim.py (process table, reaping, signal effects resolve when virtual time reaches their deadline, "
-    "SIGKILL latency parameter, exec failure script); real kernel scheduling is not modelled",
+    "SIGKILL latency parameter, exec failure script); real kernel scheduling is not modelled; SIGSTOP / SIGTSTP / SIGTTIN / SIGTTOU "
+    "suspend a worker without ending it and are reported only to a waitpid that asks for them (WUNTRACED) — the daemon never does; "
+    "a suspended worker still acts on later signals as a running one would (job-control state is not modelled further)",
     "every successful fork/exec takes at least 1 ms of virtual time, so the workers of one watcher have distinct Process.started "
     "values as on a real kernel (found by the live cross-check docs/LIVE.md D1: with ties the surplus sort would keep dict order)",
     "one external stimulus per atomic step, then the event loop runs to quiescence; timers fire in (deadline, creation) order",
